@@ -229,6 +229,12 @@ func (u *c09Upstream) handle(c net.Conn) {
 			c.Write([]byte(resp[:40]))
 			time.Sleep(3 * time.Millisecond)
 			c.Write([]byte(resp[40:]))
+		case "split-early":
+			// the first segment ends inside the status line
+			cut := []int{1, 5, 9, 11}[int(sp.SeedU%4)]
+			c.Write([]byte(resp[:cut]))
+			time.Sleep(5 * time.Millisecond)
+			c.Write([]byte(resp[cut:]))
 		default:
 			c.Write([]byte(resp))
 		}
@@ -461,7 +467,7 @@ func c09Tunnels(c *ctx) {
 					}
 				}
 				sp.HelloMode = choose(r, []string{"alone", "split", "coalesced", "coalesced"})
-				sp.WS101 = choose(r, []string{"whole", "split"})
+				sp.WS101 = choose(r, []string{"whole", "split", "split-early"})
 				rg.specs.Store(sp.ID, sp)
 				c09Conn(c, rg, sp, hello, r, &bytesC2U, &bytesU2C)
 				rg.specs.Delete(sp.ID)
